@@ -181,6 +181,12 @@ def run_check(mod, tier):
         rep.inconclusive.append('replay %s: %s %s' % (h, status,
                                                       str(payload)[-500:]))
         continue
+      if not payload.get('violates') and c.get('band_ok'):
+        # a solver counterexample that lives inside the IEEE rounding band of
+        # a float-computed quantity (DESIGN 5.1): not claimed either way
+        rep.extra['rounding_band_counterexamples_not_replayed'] = rep.extra.get(
+            'rounding_band_counterexamples_not_replayed', 0) + 1
+        continue
       if not payload.get('violates'):
         rep.inconclusive.append(
             'counterexample %s from job %s did not reproduce on the real code '
